@@ -106,6 +106,8 @@ func runC16(cx *Ctx, r *Report) {
 	cx.paramCoverage(r)
 	// ---------------- (4) params-derived denominators
 	cx.paramDivisions(r)
+	// ---------------- (5) constant indexing into a params-derived slice
+	cx.paramIndexing(r)
 	r.requireCount("authority-guard", 5)
 	r.requireCount("validated-writer", 5)
 	cx.rateBounds(r)
@@ -874,4 +876,125 @@ func (cx *Ctx) authorityWiring(r *Report) {
 	if n < 5 {
 		r.toolErr("only %d ProvideModule functions read Config.Authority (≥5 confirmed)", n)
 	}
+}
+
+// paramIndexing: x[c] with a constant index, where the slice x derives from a params
+// read (k.GetParams(ctx).MinDeposit[0]), aborts for an empty list. Validation accepts
+// empty sdk.Coins for a coins-typed parameter, so each such site needs a dominating
+// length / emptiness test on that very slice.
+func (cx *Ctx) paramIndexing(r *Report) {
+	isParamsRead := func(v ssa.Value) bool {
+		c, ok := v.(*ssa.Call)
+		if !ok {
+			return false
+		}
+		for _, e := range cx.calleesOf(c) {
+			if e.Callee.Blocks == nil {
+				continue
+			}
+			for _, pp := range cx.primsOf(e.Callee) {
+				if pp.Kind == "store.get" {
+					for _, px := range pp.Prefix {
+						if isParamsPrefix(px) {
+							return true
+						}
+					}
+				}
+			}
+		}
+		return false
+	}
+	n := 0
+	for _, f := range cx.P.AllFuncs {
+		if !isConsensusCode(cx, f) || pkgRole(funcPkgPath(f)) == RoleUpgrade || f.Blocks == nil {
+			continue
+		}
+		if strings.Contains(f.Name(), "Validate") || strings.HasPrefix(f.Name(), "validate") {
+			continue
+		}
+		for _, b := range f.Blocks {
+			for _, ins := range b.Instrs {
+				var x, idx ssa.Value
+				switch y := ins.(type) {
+				case *ssa.IndexAddr:
+					x, idx = y.X, y.Index
+				case *ssa.Index:
+					x, idx = y.X, y.Index
+				default:
+					continue
+				}
+				if _, isSlice := x.Type().Underlying().(*types.Slice); !isSlice {
+					continue
+				}
+				c, isConst := idx.(*ssa.Const)
+				if !isConst || c.Value == nil {
+					continue
+				}
+				// the slice value itself (not an element of a loop over it)
+				if !cx.derivesInterproc(x, f, isParamsRead, 0, map[ssa.Value]bool{}) {
+					continue
+				}
+				// only direct projections of the params record: GetParams(..).Field, or a value
+				// handed down from one
+				if !strings.Contains(pureExprDeep(x), "Params") && !derivesOnlyFromParam(x) {
+					continue
+				}
+				n++
+				guard := ""
+				xs := pureExpr(x, 0)
+				for _, df := range dominatingFacts(b) {
+					cs := pureExpr(df.Cond, 0)
+					if xs != "" && cs != "" && strings.Contains(cs, xs) && (strings.Contains(cs, "len(") || strings.Contains(cs, "Empty") || strings.Contains(cs, "IsZero") || strings.Contains(cs, "Len(")) {
+						guard = cs
+					}
+				}
+				pos := cx.P.Pos(ins.Pos())
+				mod := moduleOf(funcPkgPath(f))
+				key := mod + "|" + shortFn(f) + "|" + c.Value.ExactString()
+				r.check(guard != "", "params-index", key, pos, "constant index into a params-derived list under the length test "+guard, "constant index ["+c.Value.ExactString()+"] into a list read from the module parameters in "+shortFn(f)+" without a dominating length test: a parameter set with an empty list passes validation (empty sdk.Coins is valid) and this handler then aborts")
+			}
+		}
+	}
+	r.Extra["params_index_sites"] = n
+}
+
+func pureExprDeep(v ssa.Value) string {
+	s := pureExpr(v, 0)
+	if s != "" {
+		return s
+	}
+	if ins, ok := v.(ssa.Instruction); ok {
+		var parts []string
+		for _, op := range ins.Operands(nil) {
+			if op != nil && *op != nil {
+				parts = append(parts, pureExpr(*op, 0))
+			}
+		}
+		return strings.Join(parts, ",")
+	}
+	return ""
+}
+
+func derivesOnlyFromParam(v ssa.Value) bool {
+	for i := 0; i < 6; i++ {
+		switch x := v.(type) {
+		case *ssa.Parameter:
+			return true
+		case *ssa.UnOp:
+			v = x.X
+		case *ssa.FieldAddr:
+			v = x.X
+		case *ssa.Field:
+			v = x.X
+		case *ssa.Extract:
+			v = x.Tuple
+		case *ssa.Call:
+			return true
+		case *ssa.Alloc:
+			return true
+		default:
+			return false
+		}
+	}
+	return false
 }
